@@ -45,5 +45,14 @@ Cfg4 ==
      crit |-> [h \in {"h1", "h2"} |-> TRUE],
      fails |-> {}, plan |-> <<"START_ACTIVITY", "STOP_ACTIVITY", "START_ACTIVITY">>, bodyfails |-> {}, teardown |-> TRUE] :
       t1 \in {M("before_START_ACTIVITY", -1), M("before_START_ACTIVITY", 0), M("enter_RUNNING", 0), M("before_STOP_ACTIVITY", 0), M("after_STOP_ACTIVITY", -1)} }
-CfgAll == Cfg2Valid \cup Cfg3Valid \cup Cfg4
+\* a call triggered and awaited in one moment at different weights of one sign, nothing else at the await weight, and a
+\* second hook at a still later weight: the await point (5) lies between the two triggers (0, 10)
+Cfg5 ==
+  { [trig |-> [h \in {"h1", "h2"} |-> IF h = "h1" THEN M(m, 0) ELSE M(m, 10)],
+     await |-> [h \in {"h1", "h2"} |-> IF h = "h1" THEN M(m, 5) ELSE a2],
+     crit |-> [h \in {"h1", "h2"} |-> IF h = "h1" THEN c1 ELSE c2],
+     fails |-> f, plan |-> <<"START_ACTIVITY", "STOP_ACTIVITY">>, bodyfails |-> {}, teardown |-> TRUE] :
+      m \in {"leave_CONFIGURED"}, a2 \in {M("leave_CONFIGURED", 10), M("after_START_ACTIVITY", 0)},
+      c1 \in BOOLEAN, c2 \in BOOLEAN, f \in SUBSET {"h1", "h2"} }
+CfgAll == Cfg2Valid \cup Cfg3Valid \cup Cfg4 \cup Cfg5
 =============================================================================
